@@ -17,6 +17,34 @@ Theorem c08_lifetimes_exist : forall ops, exists L, 0 <= L /\ lifetimes_within L
 Proof. exact lifetimes_exist. Qed.
 Print Assumptions c08_lifetimes_exist.
 
+(* Every PIT entry - also one created for an Interest answered from the cache - is in the expiry queue under its expiration
+   time, and that time is at most the DEADLINE OF ITS KEY: `deadlines … ops (name, CanBePrefix, MustBeFresh)` is computed from
+   the history alone (Reclaim.dl_run/bd_step/tighten) as the latest arrival time + lifetime among the Interests received for
+   that key since its entry came into existence.  An entry with no record left (satisfied, or answered from the cache) is
+   due at once.  Together with c08_reaper: the entry is gone after the first Update() at or after that deadline. *)
+Theorem c08_pit_deadline : forall t0 c sv ad life ops,
+  let s := run (start t0 c sv ad life) ops in
+  forall e, In e (E s) -> p_q e = true /\ In (p_id e, p_exp e) (heap s) /\
+                          p_exp e <= Z.max (now s) (deadlines t0 c sv ad life ops (key_of e)) /\
+                          (p_ins e = [] -> p_outs e = [] -> p_exp e <= now s).
+Proof. exact pit_deadline. Qed.
+Print Assumptions c08_pit_deadline.
+
+(* what a deadline is, operation by operation: an Interest for (n, cbp, mbf) arriving at `now s` with lifetime l raises the
+   deadline of that key to at least now s + l and leaves the others alone; no other operation raises any deadline; a key
+   whose entry is gone is reset to now *)
+Theorem c08_deadline_step : forall s bd o k,
+  dl_step s bd o k =
+  (if has_key (fst (step s o)) k
+   then match o with
+        | OInterest _ n cbp mbf _ l _ => if pkey_eqb (n, cbp, mbf) k then Z.max (bd k) (now s + lifetime_of l) else bd k
+        | _ => bd k
+        end
+   else now (fst (step s o))).
+Proof. exact (fun s bd o k => match o with OInterest _ _ _ _ _ _ _ => eq_refl | _ => eq_refl end). Qed.
+Print Assumptions c08_deadline_step.
+
+(* corollary with one bound for the whole history *)
 (* invariant pit_queued: every PIT entry — also one created for an Interest answered from the cache — is in the expiry
    queue under its expiration time, which is at most L past now, and is already due when no in/out record is left
    (satisfied or answered from the cache) *)
@@ -28,7 +56,7 @@ Proof. exact pit_queued. Qed.
 Print Assumptions c08_pit_queued.
 
 (* Update() removes exactly the entries that are due and schedules the next call within 100 ms *)
-Theorem c08_reaper : forall t0 c sv ad life ops L, 0 <= L -> lifetimes_within L ops ->
+Theorem c08_reaper : forall t0 c sv ad life ops,
   let s := run (start t0 c sv ad life) ops in let s' := pit_update s in
   (forall e, In e (E s') -> In e (E s) /\ now s < p_exp e) /\ now s < timer_at s' <= now s + tick_interval.
 Proof. exact reaper. Qed.
